@@ -110,6 +110,10 @@ class Machine:
         if rng.random() < self.cfg.get("p_sformula", 0.25):
             tmp = rm.RSpace(name, parent)
             op["formula"] = gen.gen_space_formula(rng, m, tmp, self.cfg)
+        if self.cfg.get("p_space_refs") and rng.random() < self.cfg["p_space_refs"]:
+            # references handed to the creation itself (new_space(refs=...))
+            pool = self.cfg["clash_pool"] if self.cfg.get("clash") else gen.REFS
+            op["refs"] = {rng.choice(pool): self.fresh.next()}
         return op
 
     def g_new_cells(self, space=None):
